@@ -722,6 +722,12 @@ def gen(rng, tier):
     yield {"kind": "weak-seq", "L": 2, "circuit": random_circuit(rng, 2), "shots": rng.choice([3, 6]),
            "noises": rng.choice([[["pauli_x", 0.2], None], [None, ["pauli_z", 0.1], None], [None, None]])}
     yield {"kind": "weak", "L": 2, "circuit": random_circuit(rng, 2), "shots": 5, "noise": ["pauli_x", 0.2, "mixed"], "basis_state": None}
+    trng = random.Random(f"tally:{rng.getstate()[1][:4]}")   # own stream: the other kinds keep their inputs
+    for i in range({"quick": 12, "thorough": 120, "search": 24}.get(tier, 12)):
+        L = trng.choice([1, 2, 3, 5])
+        n = trng.choice([1, 2, 3, 5, 9, 30]) if i else 1
+        pool = [trng.randrange(2**L) for _ in range(trng.choice([1, 2, 3, 6]))]
+        yield {"kind": "tally", "L": L, "keys": [trng.choice(pool) for _ in range(n)], "basis": trng.choice(["Z", "X", "Y"])}
     for b, st in (("X", "x+"), ("X", "x-"), ("Y", "y+"), ("Y", "y-"), ("Z", "ones")):
         yield {"kind": "shots1", "L": rng.choice([1, 2, 3]), "basis": b, "state": st}
     # a noise model whose strengths are all zero is the noise-free policy (one trajectory, `shots` samples) in every layer
@@ -751,8 +757,73 @@ def run_shots1(inp):
             "sig": f"shots1:{L}:{basis}:{st}", "nontrivial": True}
 
 
+def run_tally(inp):
+    """`measure_shots(shots > 1)`: the histogram the real method builds from the keys its shots return, tied to `tally`
+    (the worker pool is replaced by an in-process executor whose futures log the order in which their results are read,
+    and `measure_single_shot` by a stub returning the forced keys)"""
+    import concurrent.futures as cf
+    from mqt.yaqs.core.data_structures.networks import MPS
+    keys = list(inp["keys"])
+    L = inp["L"]
+    mps = MPS(L, state="zeros")
+    order, pending = [], list(keys)
+
+    class _Future(cf.Future):
+        def result(self, timeout=None):
+            r = super().result(timeout)
+            order.append(r)
+            return r
+
+    class _Pool:
+        def __init__(self, *a, **k):
+            pass
+
+        def __enter__(self):
+            return self
+
+        def __exit__(self, *a):
+            return False
+
+        def submit(self, fn, *a, **k):
+            f = _Future()
+            f.set_result(fn(*a, **k))
+            return f
+
+    calls = []
+
+    def stub(basis="Z", rng=None):
+        calls.append(basis)
+        return pending.pop(0)
+
+    real_pool = cf.ProcessPoolExecutor
+    cf.ProcessPoolExecutor = _Pool
+    mps.measure_single_shot = stub
+    try:
+        res = mps.measure_shots(len(keys), inp["basis"])
+    finally:
+        cf.ProcessPoolExecutor = real_pool
+    if len(keys) == 1:
+        order = list(keys)
+    impl = " ".join(f"{k}:{c}" for k, c in res.items()) + f" ; {sum(res.values())}"
+    probs = []
+    if sorted(order) != sorted(keys):
+        probs.append(f"results read {sorted(order)} but the shots returned {sorted(keys)}")
+    if calls != [inp["basis"]] * len(keys):
+        probs.append(f"measure_single_shot called with {calls}, want {len(keys)} x {inp['basis']}")
+    for k in set(keys):
+        if res.get(k) != keys.count(k):
+            probs.append(f"count of key {k} is {res.get(k)}, {keys.count(k)} shots returned it")
+    if set(res) != set(keys) or sum(res.values()) != len(keys):
+        probs.append(f"histogram {res} for keys {keys}")
+    return {"req": "tally | " + " ".join(map(str, order)), "impl": impl, "kind": "tally", "edge": len(set(keys)) == 1,
+            "oracle": {"ok": not probs, "detail": "; ".join(probs) or f"{len(keys)} shots, {len(res)} keys"},
+            "sig": f"tally:{len(keys)}:{len(set(keys))}:{inp['basis']}", "nontrivial": len(keys) > len(set(keys)) > 1}
+
+
 def run(inp):
     k = inp["kind"]
+    if k == "tally":
+        return run_tally(inp)
     if k == "shots1":
         return run_shots1(inp)
     if k == "shot":
